@@ -5,6 +5,7 @@ Require PgModel.
 Require Import QuerySem SqlSem SqlFrag SqlFragP.
 Require SqlParse SqlParseP SqlSemProof SqlSemProofP SqlProvenanceP SqlLexP SqlEndToEndP SqlQueryTextP.
 Require Api Lex LexWs Printer PrintedText.
+Require LexWsG.
 From Coq Require Import ZArith List String Ascii Lia.
 Import ListNotations.
 
@@ -87,7 +88,7 @@ Theorem C04_query_text_to_parameterized_rows :
   forall (o : oracle) (o2 : oracle2) (cl : Lex.classes),
   (forall r, Lex.is_space r = true -> Lex.is_alnum cl r = false) ->
   forall (t : Printer.qt) (ts : list PgModel.tok) (a : PgModel.ast) (ps ps' : list value) (s : string),
-  Printer.wfq o t -> Forall (LexWs.lexes_alone cl) (map PrintedText.ltok (Printer.pr t)) ->
+  Printer.wfq o t -> Forall (LexWsG.lexes_clean cl) (map PrintedText.ltok (Printer.pr t)) ->
   trp (Printer.want o t) 1 = Some (ts, a, ps) ->
   side (Printer.want o t) = true -> names_ok (Printer.want o t) = true -> (Z.of_nat (1 + SqlLexP.pcount (Printer.want o t)) < 1000000000)%Z ->
   Api.to_param_postgres o o2 cl "" (PrintedText.text_of (Printer.pr t)) = Ret (s, ps', None) ->
